@@ -720,9 +720,11 @@ def finish(ctx):
         "decoder models take the bytes from the C pointer to the end of the buffer and identify *inlen with the length of that list; the pairing of pointer and length updates is checked by the `consumed` field compared on every case",
         "Fixed = the code after the patches proposed for the listed defects; the theorems are about Fixed; a case on which the tree still behaves like AsIs is reported as VIOLATION defect:<name>",
         "time_t is modelled for t >= 0 (and the marker -1); negative time stamps are not guarded by the C code and are outside the property's range",
+        "key models are parametric in [d]G (pub_of), curve membership (pt_ok), PBKDF2 (kdf) and SM4-CBC (cbcdec); the wrong-password clause is the structural theorem C14_encrypted_key_open_sound; that no second password satisfies it is cryptographic",
+        "every decoder out-parameter is pre-filled with a poison value by the harness and printed, on success and on the 'absent' answer",
         "lengths above INT_MAX and 4-byte DER lengths with matching content (>= 16 MiB) are not exercised at run time",
     ]
     return ctx.finish(level="proof",
                       rule="cases = per-type value boundaries (length octet counts, sign/minimality of integers, all 256 boolean/char values, arc septet counts, node/element counts at capacity-1/capacity/capacity+1, UTF-8 classes, calendar boundaries, 48-byte line and 64-char block boundaries, every 2-way split of three base64 texts) + mutated valid encodings + malformed literals; a cell = (op, class, ok|ERR|ABSENT|FAULT); distinct_nontrivial = cells on which implementation and Fixed model agreed",
-                      trusted=core.TRUSTED_COMMON + ["Coq files: Codec/Der.v Hex.v Base64.v Time.v (models), Codec/*Proofs.v (proofs), Props/Properties_C14.v",
+                      trusted=core.TRUSTED_COMMON + ["Coq files: Codec/Der.v Hex.v Base64.v Time.v Pkcs.v Pem.v PkcsInst.v (models; PkcsInst imports Hash/ PBKDF2 and Cipher/ SM4-CBC read-only), Codec/*Proofs.v PkcsOpen.v (proofs), Props/Properties_C14.v", "python SM2 point arithmetic in vlib/codec_common.py supplies [d]G and the on-curve verdict to the key models (hints H=/P=); PBKDF2 with 65536 iterations is taken from the harness (hint K=) for the library-made encrypted keys",
                                                      "vlib/codec_common.py (comparison and defect attribution)"])
